@@ -58,8 +58,9 @@ deriving DecidableEq, Repr
 structure Sched (α σ : Type) where
   /-- line rate (bits per second) -/
   rate : α
-  /-- `put(p)` at time `now`: new stamp state and the stamp of the packet -/
-  onPut : σ → (now : α) → SPkt → Except SErr (σ × α)
+  /-- `put(p)` at time `now` with `total` = `total_packets` (packets waiting or in transmission, all flows):
+  new stamp state and the stamp of the packet -/
+  onPut : σ → (now : α) → (total : Int) → SPkt → Except SErr (σ × α)
   /-- the loop's bookkeeping after `yield env.process(self.send_packet(p))` returned -/
   onDone : σ → (now : α) → SPkt → Except SErr σ
 
@@ -128,6 +129,11 @@ def bump : List (Nat × Int) → Nat → Int → List (Nat × Int)
   | [], k, d => [(k, d)]
   | (k', v) :: r, k, d => if k' = k then (k', v + d) :: r else (k', v) :: bump r k d
 
+/-- `total_packets`: `sum(queue_count.values())` -/
+def qcTotal : List (Nat × Int) → Int
+  | [] => 0
+  | (_, v) :: r => v + qcTotal r
+
 /-! ### the priority store -/
 
 /-- Python's `(stamp₁, arr₁) < (stamp₂, arr₂)` on tuples of floats -/
@@ -174,7 +180,7 @@ def enqueue (s : StState α σ) (sch : σ) (stamp : α) (p : SPkt) : StState α 
            items := s.items ++ [{ stamp := stamp, arr := s.now, pkt := p }] }
 
 def doPut (d : Sched α σ) (s : StState α σ) (p : SPkt) : Except SErr (StState α σ × StOut) :=
-  match d.onPut s.sch s.now p with
+  match d.onPut s.sch s.now (qcTotal s.queueCount) p with
   | .error e => .error e
   | .ok (sch, stamp) => .ok (enqueue s sch stamp p, .accepted)
 
